@@ -7,6 +7,10 @@ INT_W = {'u8': 8, 'u16': 16, 'u32': 32, 'u64': 64, 'u128': 128, 'usize': 64,
          'i8': 8, 'i16': 16, 'i32': 32, 'i64': 64, 'i128': 128, 'isize': 64,
          'bool': 1, 'char': 32}
 SIGNED = {'i8', 'i16', 'i32', 'i64', 'i128', 'isize'}
+import os
+XCHECK_EVERY = int(os.environ.get('VERIF_XCHECK_EVERY', '25') or 0)      # every n-th `unsat` answer is re-decided by two other solvers
+XCHECK_MAX = int(os.environ.get('VERIF_XCHECK_MAX', '4'))               # per solver instance (= per analysed program)
+XCHECK_TLIMIT_MS = int(os.environ.get('VERIF_XCHECK_TLIMIT_MS', '8000'))
 F64 = z3.Float64()
 RNE = z3.RNE()
 RTZ = z3.RTZ()
@@ -42,10 +46,15 @@ class Stats:
         self.paths = 0
         self.stmts = 0
         self.fresh = 0
+        self.xcheck = dict(sampled=0, agree=0, other_unknown=0, disagree=0, by_solver={})
+        self.xcheck_disagreements = []
 
     def as_dict(self):
-        return dict(queries=self.queries, sat=self.sat, unsat=self.unsat, unknown=self.unknown,
-                    solver_s=round(self.solver_s, 3), paths=self.paths, mir_statements=self.stmts)
+        d = dict(queries=self.queries, sat=self.sat, unsat=self.unsat, unknown=self.unknown,
+                 solver_s=round(self.solver_s, 3), paths=self.paths, mir_statements=self.stmts)
+        d.update(xcheck_sampled=self.xcheck['sampled'], xcheck_agree=self.xcheck['agree'], xcheck_other_unknown=self.xcheck['other_unknown'],
+                 xcheck_disagree=self.xcheck['disagree'])
+        return d
 
 
 class Smt:
@@ -159,6 +168,8 @@ class Smt:
         r = self.s.check(*extra)
         self.last_sat = (r == z3.sat)
         self.stats.solver_s += time.time() - t
+        if r == z3.unsat and XCHECK_EVERY and self.stats.unsat % XCHECK_EVERY == XCHECK_EVERY - 1 and self.stats.xcheck['sampled'] < XCHECK_MAX:
+            self.cross_check(extra)
         if r == z3.sat:
             self.stats.sat += 1
         elif r == z3.unsat:
@@ -166,6 +177,58 @@ class Smt:
         else:
             self.stats.unknown += 1
         return r
+
+    def cross_check(self, extra):
+        """second opinion on an `unsat` verdict (the verdicts that are believed without replay): the same query as SMT-LIB2 text is
+        handed to cvc5 and to the distribution's z3 4.8.12 binary.  `sat` from either is a disagreement (the check becomes
+        inconclusive, exit 2); unknown / timeout / an `(error` line counts as no opinion."""
+        import subprocess
+        import tempfile
+        try:
+            self.s.push()
+            for e in extra:
+                self.s.add(e)
+            text = self.s.to_smt2()
+            self.s.pop()
+        except Exception:
+            return
+        x = self.stats.xcheck
+        x['sampled'] += 1
+        verdicts = {}
+        with tempfile.NamedTemporaryFile('w', suffix='.smt2', delete=False) as f:
+            # z3 prints its internal `bvurem_i` / `bvudiv_i` ... (divisor known to be non-zero): the standard operators for the other solvers
+            for op in ('bvurem', 'bvudiv', 'bvsdiv', 'bvsrem', 'bvsmod'):
+                text = text.replace('(%s_i ' % op, '(%s ' % op)
+            f.write('(set-logic ALL)\n' + text)
+            path = f.name
+        try:
+            for name, cmd in (('cvc5', ['cvc5', '--lang', 'smt2', '--tlimit=%d' % XCHECK_TLIMIT_MS, path]),
+                              ('z3-4.8.12', ['/usr/bin/z3', '-T:%d' % max(1, XCHECK_TLIMIT_MS // 1000), path])):
+                try:
+                    r = subprocess.run(cmd, capture_output=True, text=True, timeout=XCHECK_TLIMIT_MS / 1000.0 + 5)
+                    out = r.stdout.strip().split('\n')
+                    v = 'unknown'
+                    if '(error' in r.stdout or '(error' in r.stderr:
+                        v = 'error'
+                    elif out and out[0].strip() in ('sat', 'unsat'):
+                        v = out[0].strip()
+                except Exception:
+                    v = 'timeout'
+                verdicts[name] = v
+                x['by_solver'].setdefault(name, {}).setdefault(v, 0)
+                x['by_solver'][name][v] += 1
+        finally:
+            import os
+            keep = any(v == 'sat' for v in verdicts.values())
+            if not keep:
+                os.unlink(path)
+        if any(v == 'sat' for v in verdicts.values()):
+            x['disagree'] += 1
+            self.stats.xcheck_disagreements.append(dict(file=path, verdicts=verdicts))
+        elif any(v == 'unsat' for v in verdicts.values()):
+            x['agree'] += 1
+        else:
+            x['other_unknown'] += 1
 
     def model(self):
         return self.s.model()
